@@ -209,6 +209,7 @@ type cop struct {
 	limit       int
 	yield       bool
 	nested      bool // the iteration consumer reads from the same view
+	badDir      bool // the iteration is asked for a direction that does not exist: the call is turned down (panic or error) and nothing else happens
 	fresh       bool // Get/Has/Set/Delete go through a view derived right now (while other clients use the parent)
 	ents        []bent
 }
@@ -427,6 +428,7 @@ func (c *concWorld) genOp(pool []string, tag string) cop {
 		o.limit = s.Choose(3)
 		o.yield = s.Choose(2) == 1
 		o.nested = s.Choose(3) == 2
+		o.badDir = s.Choose(12) == 11
 	case sCommit:
 		n := s.Choose(4) // 0: an empty batch is committed
 		for i := 0; i < n; i++ {
@@ -497,6 +499,22 @@ func (c *concWorld) run(ci int, script []cop) {
 			c.end(h, cout{}, err)
 		case sIterate, sIterateKeys:
 			keysOnly := o.kind == sIterateKeys
+			if o.badDir {
+				// not part of the history: a caller that recovers from the refusal goes on using the store, and so does
+				// everybody else (whatever the call held when it gave up is released)
+				fed := 0
+				var err error
+				panicked, _ := hx.Try(func() {
+					if keysOnly {
+						err = v.st.IterateKeys(key, func([]byte) bool { fed++; return true }, kvstore.IterDirection(7))
+					} else {
+						err = v.st.Iterate(key, func(_, _ []byte) bool { fed++; return true }, kvstore.IterDirection(7))
+					}
+				})
+				c.s.Probe("iteration-with-unknown-direction-turned-down")
+				c.s.Logf("client%d %s(%q, direction 7) -> panicked=%v err=%v fed=%d", ci, sNames[o.kind], full, panicked, err, fed)
+				continue
+			}
 			h := c.begin(ci, cin{kind: mIterate, name: sNames[o.kind], key: full, back: o.back, limit: o.limit, keysOnly: keysOnly, strip: len(v.realm)})
 			var got []kvp
 			calls := 0
